@@ -49,6 +49,7 @@ THEOREMS = [
     "Nix.C01.C01_typed_append_concat",
     "Nix.C01.C01_create_typed",
     "Nix.C01.C01_read_rule",
+    "Nix.C01.C01_read_paths_agree",
     "Nix.C01.C01_ellipsis",
     "Nix.C01.C01_shrink_grow_fill",
 ]
@@ -1344,7 +1345,7 @@ def replay_failure(ctx, fj):
 
 READY = True
 MANIFEST = {
-    "level_text": "Kernel-checked theorems (32, no Mathlib, axioms within propext/Classical.choice/Quot.sound) over a "
+    "level_text": "Kernel-checked theorems (33, no Mathlib, axioms within propext/Classical.choice/Quot.sound) over a "
                   "Lean model of nixio's array I/O logic, tied to the source by a compiler: on every run "
                   "harness/extract/datasetshape.py compiles DataSet.append (every check, comprehension, the resize, "
                   "the hyperslab write, the restore-on-failure), __getitem__/__setitem__/write_direct/len/shape/size/"
